@@ -167,7 +167,7 @@ def plan(tier):
 
 
 def shards(tier):
-    return layers.shards(plan(tier), ())
+    return layers.shards(plan(tier), ('order', 'args'))
 
 
 def prepare(tier):
